@@ -3,3 +3,11 @@
 
 def c01(ctx, rep):
     pass
+
+
+def c02(ctx, rep):
+    pass
+
+
+def c03(ctx, rep):
+    pass
